@@ -43,11 +43,26 @@ def facts(read, die, define):
                     defaults[p[1][1]] = d["default"]
     if set(pats) != {"binaryFormat", "arrayLengthFormat"}:
         die("C12: expected exactly the binaryFormat and arrayLengthFormat patterns, found %r" % sorted(pats))
-    m = re.fullmatch(r"\^\(\[((?:\\.|[^\]\\])+)\]\|\\d\*\[([a-zA-Z]+)\]\)\$", pats["binaryFormat"])
-    if not m:
-        die("C12: unrecognised binaryFormat regex shape %r" % pats["binaryFormat"])
+    # accepted shapes:  ^([singles]|\d*[counted])$   and, with a zero count forbidden for Pascal
+    # strings,          ^([singles]|\d*[counted-without-p]|p|0*[1-9]\d*p)$
+    pat = pats["binaryFormat"]
+    if not (pat.startswith("^(") and pat.endswith(")$")):
+        die("C12: unrecognised binaryFormat regex shape %r" % pat)
+    alts = pat[2:-2].split("|")
+    m = re.fullmatch(r"\[((?:\\.|[^\]\\])+)\]", alts[0])
+    m2_ = re.fullmatch(r"\\d\*\[([a-zA-Z]+)\]", alts[1]) if len(alts) > 1 else None
+    if not m or not m2_:
+        die("C12: unrecognised binaryFormat regex shape %r" % pat)
     single = re.sub(r"\\(.)", r"\1", m.group(1))
-    counted = m.group(2)
+    counted = m2_.group(1)
+    pascal_zero = True
+    if len(alts) == 2:
+        pass
+    elif alts[2:] == ["p", r"0*[1-9]\d*p"] and "p" not in counted:
+        counted = "".join(sorted(counted + "p", key="spx".index)) if set(counted + "p") <= set("spx") else counted + "p"
+        pascal_zero = False
+    else:
+        die("C12: unrecognised binaryFormat regex shape %r" % pat)
     m2 = re.fullmatch(r"\^\[([A-Za-z]+)\]\$", pats["arrayLengthFormat"])
     if not m2:
         die("C12: unrecognised arrayLengthFormat regex shape %r" % pats["arrayLengthFormat"])
@@ -92,6 +107,22 @@ def facts(read, die, define):
     if prefixes != {"<"}:
         die("C12: struct byte-order prefixes used with binaryFormat are %r, expected only '<'" % prefixes)
 
+    # object_encode: does `except KeyError` wrap the nested encoder call (swallowing a KeyError
+    # raised inside it), or is the default chosen by a plain membership test?
+    swallow = set()
+    for fn in ast.walk(tree):
+        if isinstance(fn, ast.FunctionDef) and fn.name == "object_encode":
+            has_try = any(isinstance(n, ast.Try) and any(
+                isinstance(h.type, ast.Name) and h.type.id == "KeyError" for h in n.handlers)
+                for n in ast.walk(fn))
+            has_in = any(isinstance(n, ast.If) and isinstance(n.test, ast.Compare)
+                         and any(isinstance(o, ast.In) for o in n.test.ops) for n in ast.walk(fn))
+            if has_try == has_in:
+                die("C12: cannot tell how object_encode chooses between obj[key] and the default")
+            swallow.add(has_try)
+    if len(swallow) != 1:
+        die("C12: object_encode definitions disagree or are missing (%r)" % swallow)
+
     def zl(s):
         return "[" + "; ".join(str(ord(c)) for c in s) + "]"
 
@@ -104,6 +135,8 @@ def facts(read, die, define):
         "Definition c12_array_length_formats : list Z := %s." % zl(alen),
         "Definition c12_array_length_default : Z := %d." % ord(alen_default),
         "Definition c12_struct_sizes : list (Z * Z) := %s." % sizes(single + counted),
+        "Definition c12_pascal_zero_allowed : bool := %s." % ("true" if pascal_zero else "false"),
+        "Definition c12_encode_swallows_nested_keyerror : bool := %s." % ("true" if swallow.pop() else "false"),
         "Definition c12_format_to_dtype : list (Z * (Z * Z)) := [%s]."
         % "; ".join("(%d, (%d, %d))" % (a, b, c) for a, b, c in rows),
     ]
